@@ -1,3 +1,4 @@
+import re
 from collections import namedtuple
 
 from ply import yacc, lex
@@ -7,6 +8,11 @@ ProgramNode = namedtuple("ProgramNode", ("commands", "version"))
 CommandNode = namedtuple("CommandNode", ("result_name", "command", "arguments", "lineno"))
 ArgumentNode = namedtuple("ArgumentNode", ("name", "value", "lineno"))
 ExpressionNode = namedtuple("ExpressionNode", ("value", "lineno"))
+
+
+FLOAT_PATTERN = r"[\-\+]?((((\d+\.\d*)|(\.\d+))([eE][\+\-]?\d+)?)|(\d+[eE][\+\-]?\d+))"
+INT_PATTERN = r"[\-\+]?\d+"
+NUMBER_TEXT = re.compile("({0})|({1})".format(FLOAT_PATTERN, INT_PATTERN))
 
 
 class Lexer(object):
@@ -48,12 +54,12 @@ class Lexer(object):
     def t_ID(self, t):
         return t
 
-    @TOKEN(r"[\-\+]?((((\d+\.\d*)|(\.\d+))([eE][\+\-]?\d+)?)|(\d+[eE][\+\-]?\d+))")
+    @TOKEN(FLOAT_PATTERN)
     def t_FLOAT(self, t):
         t.value = float(t.value)
         return t
 
-    @TOKEN(r"[\-\+]?\d+")
+    @TOKEN(INT_PATTERN)
     def t_INT(self, t):
         try:
             t.value = int(t.value)
@@ -199,6 +205,31 @@ class Parser(object):
 
         # Take the leading piece as it is written in the source (including the blanks that follow it and the
         # exact spelling of a number such as 007), rather than re-printing the token value
+        p[0] = p.lexer.lexdata[p.lexpos(1) : p.lexpos(2)] + p[2]
+
+    def p_plain_string_ending_in_number(self, p):
+        """
+        plain_string : PLAIN_STRING number_tail
+                     | ID number_tail
+        """
+
+        p[0] = p.lexer.lexdata[p.lexpos(1) : p.lexpos(2)] + p[2]
+
+    def p_number_tail(self, p):
+        """
+        number_tail : INT
+                    | FLOAT
+        """
+
+        # The number as it is written in the source (e.g. 007), not the re-printed token value
+        p[0] = NUMBER_TEXT.match(p.lexer.lexdata, p.lexpos(1)).group(0)
+
+    def p_number_tail_numbers(self, p):
+        """
+        number_tail : INT number_tail
+                    | FLOAT number_tail
+        """
+
         p[0] = p.lexer.lexdata[p.lexpos(1) : p.lexpos(2)] + p[2]
 
     def p_permissive_plain_string(self, p):
